@@ -15,6 +15,16 @@ CheckProof(heap, info, k, h) ==
 \* the new state hash is the level-0 hash of the second child of the state-update cell (third reference)
 CheckBlockHeader(heap, info, k, h) == C!HashAt(heap, info, k, 0) = h
 StateHashOf(heap, info, k) == C!HashAt(heap, info, heap[heap[k].r[3]].r[2], 0)
+\* ... but the block hash commits to the new state only through the Merkle update cell's stored new_hash field (the update's own
+\* hash covers its data and its children's LEVEL-1 hashes): the child's level-0 hash is the committed state hash only if the cell is
+\* a well-formed Merkle update (TON refuses to load one whose stored hashes differ from its children's level-0 hashes).  A pruned
+\* branch with two stored hashes under the update can carry the genuine level-1 hash and ANY level-0 hash.
+UpdateCommitsNewState(heap, info, k) ==
+    /\ Len(heap[k].r) >= 3
+    /\ LET c == heap[heap[k].r[3]] IN
+       /\ c.t = C!MUPDATE /\ Len(c.r) = 2 /\ c.n = 8 + 16 * (HLen + 2)
+       /\ Sub(c.y, 2 + HLen, HLen) = C!HashAt(heap, info, c.r[2], 0)
+CheckBlockHeaderState(heap, info, k, h) == CheckBlockHeader(heap, info, k, h) /\ UpdateCommitsNewState(heap, info, k)
 \* account: the claimed account cell must BE the committed one: its own representation hash (all levels) equals the
 \* level-0 hash the proof commits to; a pruned branch that merely carries that hash has a different representation hash
 AccountCellOk(heapP, infoP, committed, heapA, infoA, claimed) ==
